@@ -383,7 +383,8 @@ def prop(pid, **kw):
 
 
 prop("C02", modules=["SasLexer.Properties.C02"], theorems=["SasLexer.kernel_C02_boundaries", "SasLexer.kernel_C02_last_eof", "SasLexer.kernel_C02_monotone_debug", "SasLexer.kernel_C02_monotone_release", "SasLexer.run_KMono",
-                                                            "SasLexer.C02_model_single_eof", "SasLexer.model_single_eof", "SasLexer.awp_sound", "SasLexer.mainLoop_awp"],
+                                                            "SasLexer.C02_model_single_eof", "SasLexer.model_single_eof", "SasLexer.awp_sound", "SasLexer.mainLoop_awp",
+                                                            "SasLexer.C02_model", "SasLexer.model_first_at_bom", "SasLexer.cwp_sound", "SasLexer.run_KOld", "SasLexer.dispatchModeDefault_cov"],
      variants=["dev", "rel", "dev-sep", "rel-sep"], proj=proj_tok_bytes)
 prop("C03", modules=["SasLexer.Properties.C03"], theorems=["SasLexer.kernel_C03", "SasLexer.C03_model"],
      variants=["dev", "rel", "rel-sep"], proj=proj_positions)
